@@ -341,8 +341,22 @@ def gen_layout_random(rnd, n, devs):
     return out
 
 
+def mc_layout(tier):
+    sc = Scratch("C02-mc")
+    try:
+        mc = model_check("MC_Layout", sc, cfg="MC_Layout" if tier == "quick" else "MC_Layout_thorough", workers=8, xmx="12g", coverage=False, timeout=3000)
+        mc["theorems"] = ("for every program of up to %d items over {one-/two-word instruction, .db 1/2/3, .dw, .byte, label, forward .org, .cseg/.dseg/.eseg} "
+                          "that builds: every fragment sits in the image at the address layout assigned (LandsWhereAssigned), no byte is written twice "
+                          "(NoOverlap), uncovered bytes are zero (GapsAreZero), the image ends at the last fragment, a label equals the address of the "
+                          "item following it (LabelAtNextItem), the item after .org N starts at N (OrgHonoured)" % (4 if tier == "quick" else 5))
+        return mc
+    finally:
+        sc.cleanup()
+
+
 def check_c02(prop, tier, seed, devices):
     rnd = random.Random(seed)
+    mc = mc_layout(tier)
     devs = C02_DEVS
     cases = gen_layout_exhaustive(3 if tier == "quick" else 4, ["", "ATmega48", "ATtiny20"])
     cases += gen_layout_random(rnd, 1500 if tier == "quick" else 40000, devs)
@@ -367,7 +381,7 @@ def check_c02(prop, tier, seed, devices):
                 prog[-1]["lab"] = "here"
                 observe_labels(prog, ["here"])
                 cases.append(Case(prog, tag=tag))
-    return run_cases(prop, tier, seed, cases, devices, keyf=default_key,
+    return run_cases(prop, tier, seed, cases, devices, keyf=default_key, mc=mc,
                      extra=[pipeline_extra(sample=2500 if tier == "quick" else 20000, fixtures=True, suite=True, seed=seed)],
                      rule="all sequences up to length 3 (quick) / 4 (thorough) over a 15-symbol layout alphabet x 3 device classes, "
                           "plus seeded random programs of 5-60 items over 5 devices; each with a .dw table of its labels; "
@@ -808,10 +822,29 @@ def cond_program(struct, choice):
     return prog
 
 
+def mc_cond(tier):
+    """Model-checks the conditional machinery of the specification itself (MC_Cond) and its broken variant."""
+    sc = Scratch("C08-mc")
+    try:
+        mc = model_check("MC_Cond", sc, cfg="MC_Cond" if tier == "quick" else "MC_Cond_thorough", workers=8, xmx="12g", coverage=False,
+                         timeout=3000)
+        rb = run_tlc("MC_Cond", cfg="MC_Cond_broken", workdir=sc.dir, timeout=600, workers=4, xmx="4g")
+        if "Invariant SelectedAgree is violated" not in rb.out:
+            raise ToolError("non-vacuity: the reader without a taken flag must violate SelectedAgree")
+        mc["theorems"] = ("SelectedAgree: the stack machine assembles exactly the lines the declarative reading of the property selects; "
+                          "Filtered: a program and its filtered text build to the same result -- for every well-formed program of up to %d lines "
+                          "(nesting <= 3) over {.if 0/1, .if K==1, .ifdef/.ifndef, .elif 0/1, .else, .endif, .define, marker, garbage}" % (6 if tier == "quick" else 8))
+        mc["broken_variant"] = "the reader without a taken flag (the implementation before fix fd04ac7) violates SelectedAgree after %d states" % rb.distinct
+        return mc
+    finally:
+        sc.cleanup()
+
+
 def check_c08(prop, tier, seed, devices):
     rnd = random.Random(seed)
+    mc = mc_cond(tier)
     cases = []
-    maxn = 6 if tier == "quick" else 8
+    maxn = 7 if tier == "quick" else 9
     per_struct = 3 if tier == "quick" else 6
     nstruct = 0
     for n in range(2, maxn + 1):
@@ -835,7 +868,7 @@ def check_c08(prop, tier, seed, devices):
             uniq.append(c)
     if tier == "quick" and len(uniq) > 25000:
         uniq = rnd.sample(uniq, 25000)
-    return run_cases(prop, tier, seed, uniq, devices, keyf=default_key,
+    return run_cases(prop, tier, seed, uniq, devices, keyf=default_key, mc=mc,
                      rule="every well-formed nesting structure (if / elif* / else? / endif, nesting <= 3) of up to %d lines, each instantiated with "
                           "all-true, all-false and %d seeded assignments of {.if 0/1, .if K==k, .ifdef/.ifndef FLAG} x {.elif 0/1/K==k} x "
                           "{marker instruction, .message, garbage text, .define FLAG, label+use}; %d structures" % (maxn, per_struct, nstruct),
